@@ -140,6 +140,47 @@ PLAN["C20"] = other(
     "Numeric series helpers match their definitions on the stated bounded domain.", ["c20_series"],
     "; deductive obligations for _stepFilter's index logic are added when built (see evidence)")
 
+PLAN["C12"] = other(
+    "Deductive: addTier/removeTier/renameTier/replaceTier proved equal to the ordered-map spec (names, order, "
+    "mapping, duplicate rejected, span only widens, failed calls change nothing) and Textgrid.crop/insertSpace/"
+    "editTimestamps proved to return the same names in the same order with each tier = the tier-level operation "
+    "(tiers share the span for strict/truncated crop and insertSpace) - for every textgrid with 0..2 existing tiers "
+    "(tier COUNT enumerated; names, indices, spans, contents symbolic). Bounded: exhaustive depth-4/5 histories against "
+    "a list model, mergeTiers, eraseRegion.",
+    "A Textgrid behaves as an ordered, uniquely named tier map and edits act tier-wise: proved per operation for up to 2 "
+    "pre-existing tiers with everything else symbolic; whole histories and the remaining operations on the stated "
+    "bounded domain.", ["c12_textgrid_model"], "; the enumeration of the number of existing tiers (0..2) is a bound")
+PLAN["C13"] = other(
+    "Deductive: for every copy-returning operation under contract (crop, insertSpace, editTimestamps, appendTier on tiers; "
+    "crop/insertSpace/editTimestamps on textgrids) the frame obligation 'no mutating construct is executed on the "
+    "receiver or an argument' is discharged on every path, and for the mutators (insertEntry, deleteEntry, addTier, "
+    "removeTier, renameTier, replaceTier) every raising path is proved to leave the object equal to its initial state "
+    "(the spec raises before changing anything). Bounded: before/after snapshots of every operation incl. save.",
+    "Copy-returning operations never mutate and failed mutations change nothing: proved per operation under contract; "
+    "snapshots of all operations (incl. save with a pre-existing file) on the stated bounded domain.",
+    ["c13_no_mutation"])
+
+PLAN["C07"] = other(
+    "Deductive: IntervalTier.eraseRegion without shrinking (truncate / categorical / error; the delete loop by the "
+    "R-ERASE rule, the re-inserted edge pieces through insertEntry's contract, list equality by the sorted-sets lemma) "
+    "and PointTier.eraseRegion with and without shrinking are proved equal to the per-entry spec from the property, "
+    "with span/wf/nothing-inside postconditions. Bounded: shrinking of interval tiers (shift, join of the straddler, "
+    "span end), Textgrid.eraseRegion, and randomized decimals for the rounding clause.",
+    "eraseRegion blanks exactly the region: proved for interval tiers without shrinking and for point tiers in both "
+    "modes; the interval shrink/join step and the floating-point clause are checked on the stated bounded domain "
+    "(and are known to fail by rounding: KF10).", ["c07_erase"],
+    "; precondition of the interval proofs: entries pairwise distinguishable under Interval.__eq__ (sliver region: KF04)")
+PLAN["C05"] = other(
+    "Deductive: the class invariant argument - both constructors are proved to establish well-formedness (or raise "
+    "TextgridStateError / TimelessTextgridTierException), and crop, editTimestamps, insertSpace, appendTier, "
+    "eraseRegion (no shrink; points both), insertEntry are each proved to return / leave a well-formed tier on every "
+    "path (ensures valid, in-span, stripped, disjoint, sorted), raising only praatio errors. Bounded: random histories "
+    "of all 15 operations (length <= 12) for the operations not under contract (union, difference, intersection, "
+    "mergeLabels, dejitter, morph, deleteEntry on points, interval shrink).",
+    "Every tier produced by an operation under contract is well-formed for all inputs (invariant preservation, hence "
+    "all histories of those operations); the remaining operations are covered by bounded histories.",
+    ["c05_histories"])
+
 NOT_CLAIMED = {}
 
 U = "praatio/utilities/utils.py"
